@@ -200,6 +200,21 @@ def impl(case):
     res["names"] = list(w.world_axis_names)
     res["comps"] = [[c[0], c[1], c[2] if isinstance(c[2], str) else "callable"] for c in w.world_axis_object_components]
     res["class_keys"] = list(w.world_axis_object_classes.keys())
+    # a copy taken from the WCS after it has answered these questions says the same about itself (nothing the answers were built
+    # from may be tied to the original's own objects)
+    try:
+        import copy as _copy
+        import pickle as _pickle
+        for nm_, cp_ in (("deepcopy", _copy.deepcopy), ("pickle", lambda o: _pickle.loads(_pickle.dumps(o)))):
+            w2_ = cp_(w)
+            c2 = [[c[0], c[1], c[2] if isinstance(c[2], str) else "callable"] for c in w2_.world_axis_object_components]
+            k2 = list(w2_.world_axis_object_classes.keys())
+            if c2 != res["comps"] or k2 != res["class_keys"]:
+                res["copy_differs"] = "%s: components %s classes %s" % (nm_, c2, k2)
+                break
+    except Exception as e:
+        if "pickle" not in str(e).lower():
+            res["copy_differs"] = "copying raised %s: %s" % (type(e).__name__, str(e)[:80])
     # what each sub-frame says about its own axes
     res["sub"] = [{"phys": list(f.axis_physical_types), "units": [x.to_string(format="vounit") for x in f.unit], "names": list(f.axes_names)} for f in subs]
     try:
@@ -312,6 +327,9 @@ def oracle(case, res):
             if sub["names"] != ["lon", "lat"] or sub["phys"] != CEL[spec["ref"]]:
                 out.append(("celestial_meta", "a %s celestial frame describes its (longitude, latitude) axes as names %s, physical types %s" %
                             (spec["ref"], sub["names"], sub["phys"])))
+    if res.get("copy_differs"):
+        out.append(("copy", "a copy of the WCS (taken after it was used) describes its world axes differently: %s; the original: components %s classes %s" %
+                    (res["copy_differs"], res["comps"], res["class_keys"])))
     if len(set(res["class_keys"])) != len(res["class_keys"]) or len({c[0] for c in res["comps"]}) > len(res["class_keys"]):
         out.append(("class_keys", "object class keys %s / components %s are inconsistent" % (res["class_keys"], res["comps"])))
     if "objs_err" in res:
